@@ -285,145 +285,3 @@ func zzvWaitPubChecked(r *zzvRec, rp *Republisher, tm zzvTiming) {
 	}
 	r.mu.Unlock()
 }
-
-// ---- concurrent callers (exploring scheduler) ----------------------------------------------------------------
-
-// before reports whether hand-in i returned before hand-in j started (real-time order of the calls).
-func (r *zzvRec) before(i, j int) bool { return r.done[i] != 0 && r.done[i] < r.started[j] }
-
-// handIn returns the index of the (unique) hand-in of pool value v, -1 if none.
-func (r *zzvRec) handIn(v int) int {
-	for i, x := range r.handed {
-		if x == v {
-			return i
-		}
-	}
-	return -1
-}
-
-// coveredBy: hand-in u is "published or superseded by a published later value" in the current log: some
-// successful publish carries u's value or the value of a hand-in that is not older than u.
-func (r *zzvRec) covered(u int) bool {
-	if r.handed[u] == r.initial && len(r.log) == 0 {
-		return true
-	}
-	for _, e := range r.log {
-		p := r.handIn(e.val)
-		if p >= 0 && (p == u || !r.before(p, u)) {
-			return true
-		}
-	}
-	return false
-}
-
-// HarnessC21Conc: two callers run concurrently with the republisher goroutine under the exploring scheduler
-// (pre-emption at every channel/select/timer operation, bounded number of pre-emptions; ready select cases
-// are a symbolic choice). Caller 1 hands in one or two fresh values with an optional pause in between; caller
-// 2 hands in one fresh value, or calls WaitPub, or calls Close. Every hand-in carries a distinct value, so the
-// order oracle is exact: v is older than w iff Update(v) returned before Update(w) started.
-func HarnessC21Conc() {
-	F := verifrt.Param("F", 0)
-	tm := zzvTimingCfg(0)
-	r := &zzvRec{failsLeft: F}
-	for i := range r.pool {
-		r.pool[i] = zzvCid(i)
-	}
-	rp := NewRepublisher(r.publish, tm.short, tm.long, r.pool[r.initial])
-
-	n1 := verifrt.NondetRange("n1", 1, 2)
-	gap := verifrt.NondetRange("gap", 0, 2)
-	kind2 := verifrt.NondetRange("kind2", 0, 2)
-
-	var wg sync.WaitGroup
-	wg.Add(2)
-	go func() {
-		defer wg.Done()
-		r.update(rp, 1)
-		if n1 == 2 {
-			switch gap {
-			case 1:
-				time.Sleep(tm.nap)
-			case 2:
-				time.Sleep(tm.sleepS)
-			}
-			r.update(rp, 2)
-		}
-	}()
-	var waitErr, closeErr error
-	var seenAtCall []int // hand-ins that had returned when WaitPub/Close was called
-	waitOK, closeOK := true, true
-	go func() {
-		defer wg.Done()
-		switch kind2 {
-		case 0:
-			r.update(rp, 3)
-		case 1, 2:
-			r.mu.Lock()
-			for i := range r.handed {
-				if r.done[i] != 0 {
-					seenAtCall = append(seenAtCall, i)
-				}
-			}
-			r.mu.Unlock()
-			if kind2 == 1 {
-				ctx, cancel := context.WithTimeout(context.Background(), time.Duration(F+3)*tm.sleepL)
-				waitErr = rp.WaitPub(ctx)
-				cancel()
-			} else {
-				closeErr = rp.Close()
-			}
-			r.mu.Lock()
-			for _, u := range seenAtCall {
-				if !r.covered(u) {
-					if kind2 == 1 {
-						waitOK = false
-					} else {
-						closeOK = false
-					}
-				}
-			}
-			r.mu.Unlock()
-		}
-	}()
-	wg.Wait()
-
-	verifrt.Assert("C21.conc.waitpub-returns", waitErr == nil)
-	verifrt.Assert("C21.conc.waitpub-implies-published", waitOK)
-	verifrt.Assert("C21.conc.close-returns-nil", closeErr == nil)
-	verifrt.Assert("C21.conc.close-publishes-pending", closeOK)
-
-	if kind2 != 2 {
-		for i := 0; i < F+2; i++ {
-			time.Sleep(tm.sleepL)
-			zzvSettle()
-		}
-	}
-	r.mu.Lock()
-	// the publish log: only handed-in values, no duplicates, never a value older than an earlier one
-	prev := -1
-	for k, e := range r.log {
-		p := r.handIn(e.val)
-		verifrt.Assert("C21.conc.published-value-was-handed-in", p >= 0 && r.started[p] != 0)
-		if k > 0 {
-			verifrt.Assert("C21.conc.no-duplicate-publish", p != prev)
-			verifrt.Assert("C21.conc.no-regression", !r.before(p, prev))
-		}
-		prev = p
-	}
-	if kind2 != 2 {
-		// quiescent, republisher still running: the last published value is a latest one (no hand-in started
-		// after its hand-in returned)
-		verifrt.Assert("C21.conc.something-published", len(r.log) > 0)
-		if len(r.log) > 0 {
-			for j := range r.handed {
-				verifrt.Assert("C21.conc.latest-eventually-published", !r.before(prev, j))
-			}
-		}
-	}
-	verifrt.Observe("nhanded", len(r.handed))
-	r.mu.Unlock()
-	if kind2 != 2 {
-		rp.cancel()
-	}
-	verifrt.Reach("end")
-}
